@@ -300,6 +300,26 @@ def check_group_names():
     return out
 
 
+def bad_image_name(good, how):
+    """IMG-PP-SCENE-DATE-PRODUCT[-SN] with one component replaced by a near miss"""
+    parts = good.split("-")
+    if how == "date":
+        parts[3] = parts[3][:2] + "0230"          # 30 February
+    elif how == "month":
+        parts[3] = parts[3][:2] + "1301"
+    elif how == "level":
+        parts[4] = parts[4][:4] + "2.1" + parts[4][7:]
+    elif how == "mode":
+        parts[4] = "XYZ" + parts[4][3:]
+    elif how == "pol":
+        parts[1] = "XX"
+    elif how == "lower":
+        parts[4] = parts[4].lower()
+    elif how == "scan":
+        parts = parts[:5] + ["BX"]
+    return "-".join(parts)
+
+
 def check_open(case):
     """a product named with this id is opened for real"""
     pid = PRODUCT_IDS[case["index"]]
@@ -322,6 +342,22 @@ def check_open(case):
         }
     )
     files, info = product.build_product(spec)
+    if case.get("bad_name"):
+        # the same product with ONE image file whose name is outside the language (and listed
+        # under that name in the summary): the name must be rejected, not turned into some group
+        good = info["names"]["sar_imagery"][0]
+        bad = bad_image_name(good, case["bad_name"])
+        if RECOGNISERS["filename"](bad)[0] != "out":
+            return []
+        files[bad] = files.pop(good)
+        files["summary.txt"] = files["summary.txt"].replace(good.encode(), bad.encode())
+        with harness.Materialised(files, "memory") as prod:
+            tree, err = harness.guard(harness.open_tree, prod.url, use_cache=False)
+        if err is None:
+            return [harness.disc("accepted-invalid", "open_alos2", "ValueError", sorted(tree["imagery"].children), string=bad)]
+        if not isinstance(err, ValueError):
+            return [harness.disc("wrong-exception", "open_alos2", "ValueError", harness.exc_text(err), string=bad)]
+        return []
     with harness.Materialised(files, "memory") as prod:
         tree, err = harness.guard(harness.open_tree, prod.url, use_cache=False)
         if err is not None:
@@ -374,6 +410,8 @@ def enum_cases(tier):
         idx = rng.randrange(3600)
         scan = rng.choice([None, None, "F1", "B3"])
         yield {"kind": "open", "index": idx, "scan": scan}
+    for j, how in enumerate(["date", "month", "level", "mode", "pol", "lower", "scan"]):
+        yield {"kind": "open", "index": rng.randrange(3600), "scan": [None, "F2"][j % 2], "bad_name": how}
 
 
 ALPHABET = string.ascii_uppercase + string.digits + "._-"
